@@ -8,6 +8,8 @@ Sub-checks
   aam_renumber            AAMValidator.smiles_check(variant, original) is True (RC and ITS, both argument orders).
   aam_swap                two same-element centre atoms transposed on the product side: verdict == own isomorphism
                           decision on the labelled centre (RC) / labelled ITS (ITS).
+  equivariant_graphs      AAMValidator.check_equivariant_graph on lists of small synthetic ITS-like graphs ==
+                          own pairwise isomorphism decision (typesGH node labels, bond order pairs).
   balance                 BalanceReactionCheck.rsmi_balance_check == own element(+H)/charge counter, on corpus
                           reactions and fragment-deleted / fragment-duplicated / one-atom-edited variants.
 All oracles are RDKit + vlib only (chem_gen, c09_ref, oracles.iso).
@@ -30,7 +32,9 @@ RULE = (
     "automorphism (own count on element, aromatic, charge, hcount / order). standardize / aam_renumber: "
     "non-trivial = rewriting that changes maps or atom order. aam_swap: every unordered pair of same-element "
     "centre atoms of every input reaction, transposed on the product side, optionally rewritten; non-trivial = "
-    "the unlabelled centre is still isomorphic to the original one. balance: original / fragment deleted / "
+    "the unlabelled centre is still isomorphic to the original one. equivariant_graphs: lists of 2-4 graphs with "
+    "2-5 nodes (a base graph, relabelled copies, one-edit neighbours, unrelated graphs); non-trivial = some pair "
+    "is isomorphic or differs in bond order pairs only. balance: original / fragment deleted / "
     "fragment duplicated / one bracket atom edited (vendored textual H or charge edits, result must sanitise), "
     "optionally with maps stripped; non-trivial = unbalanced variant that keeps the heavy-atom formula "
     "(H-only or charge-only imbalance). Distinct by the generated case."
@@ -131,7 +135,16 @@ def wl_depth_tie(case, violation, match):
     return ref.has_colour_tie(case["rsmi"], int(case.get("wl_iterations", 3)))
 
 
-KNOWN_PREDICATES = {"wl_depth_tie": wl_depth_tie}
+def wl_stable_tie(case, violation, match):
+    """Stricter variant for a tree in which depth-k ties are broken by refining to a stable partition (the proposed
+    repair): only a tie that survives refinement to stability (|V| rounds) explains a wl dependence."""
+    if case.get("backend") != "wl":
+        return False
+    n = cg.side_graph(case["rsmi"].split(">>")[0]).number_of_nodes()
+    return ref.has_colour_tie(case["rsmi"], n)
+
+
+KNOWN_PREDICATES = {"wl_depth_tie": wl_depth_tie, "wl_stable_tie": wl_stable_tie}
 
 
 # ====================================================================== (b) Standardize.fit
@@ -224,6 +237,77 @@ def strat_aam_swap(tier):
     return st.builds(lambda c, s: dict(c, spec=s), st.one_of(st.sampled_from(hard), st.sampled_from(allc)), spec)
 
 
+# ---------------------------------------------------------------------- check_equivariant_graph, directly
+# The product-side transpositions above never produce two graphs whose node labels match while only the bond
+# order pairs differ (checked on all 16 148 centre x any-atom transpositions of the inputs), so the bond part of
+# the matcher is exercised on small synthetic ITS-like graphs: node label typesGH, edge label order pair.
+_TGH = [
+    [["C", False, 0, 0, ["C"]], ["C", False, 0, 0, ["C"]]],
+    [["C", False, 1, 0, ["C"]], ["C", False, 0, 0, ["C", "O"]]],
+    [["O", False, 1, 0, ["C"]], ["O", False, 0, 0, ["C", "C"]]],
+    [["N", False, 0, 1, ["C"]], ["N", False, 0, 0, ["C"]]],
+]
+_ORD = [[1.0, 1.0], [1.0, 2.0], [2.0, 1.0], [1.0, 0.0], [0.0, 1.0]]
+
+
+def _its_like(case):
+    import networkx as nx
+
+    g = nx.Graph()
+    for n, a in case["nodes"]:
+        t = a["typesGH"]
+        g.add_node(n, typesGH=tuple((s[0], s[1], s[2], s[3], list(s[4])) for s in t), key=repr(t))
+    for u, v, a in case["edges"]:
+        g.add_edge(u, v, order=tuple(a["order"]), standard_order=a["order"][0] - a["order"][1])
+    return g
+
+
+def body_equivariant(case, rec):
+    from synkit.Chem.Reaction.aam_validator import AAMValidator
+
+    from vlib.oracles import iso
+
+    gs = [_its_like(c) for c in case["graphs"]]
+    node_ok = iso.eq_on(("key",))
+    exp, order_only = [], 0
+    for i in range(len(gs)):
+        for j in range(i + 1, len(gs)):
+            if iso.is_isomorphic(gs[i], gs[j], node_ok, iso.eq_on(("order",))):
+                exp.append((i, j))
+            elif iso.is_isomorphic(gs[i], gs[j], node_ok, lambda a, b: True):
+                order_only += 1
+    rec.nt(bool(exp) or order_only > 0)
+    rec.label(f"isomorphic-pairs={min(len(exp), 3)}", f"pairs-differing-in-bond-orders-only={min(order_only, 2)}")
+    rec.show(dict(graphs=case["graphs"], isomorphic_pairs=exp))
+    got, count = AAMValidator.check_equivariant_graph(gs)
+    if sorted(map(tuple, got)) != exp or count != len(exp):
+        raise Violation("equivariant-pairs", f"check_equivariant_graph -> {got}, {count}; own isomorphism decision {exp} on {case['graphs']}")
+
+
+def strat_equivariant(tier):
+    from vlib import graph_gen as gg
+
+    na = st.fixed_dictionaries(dict(typesGH=st.sampled_from(_TGH)))
+    ea = st.fixed_dictionaries(dict(order=st.sampled_from(_ORD)))
+
+    @st.composite
+    def build(draw):
+        g0 = draw(gg.graphs(min_nodes=2, max_nodes=5, node_attrs=na, edge_attrs=ea, max_components=2))
+        out = [g0]
+        for _ in range(draw(st.integers(1, 3))):
+            kind = draw(st.sampled_from(["copy", "edit", "edit", "fresh"]))
+            if kind == "copy":
+                out.append(draw(gg.relabelled(g0))[0])
+            elif kind == "edit":
+                e = draw(gg.one_edit(g0, node_alts={"typesGH": _TGH}, edge_alts={"order": _ORD}))[0]
+                out.append(draw(gg.relabelled(e))[0])
+            else:
+                out.append(draw(gg.graphs(min_nodes=2, max_nodes=5, node_attrs=na, edge_attrs=ea, max_components=2)))
+        return {"graphs": list(draw(st.permutations(out)))}
+
+    return build()
+
+
 # ====================================================================== (d) BalanceReactionCheck
 def body_balance(case, rec):
     from synkit.Chem.Reaction.balance_check import BalanceReactionCheck
@@ -290,6 +374,8 @@ SUBS = [
         shards={"quick": 4, "thorough": 16}),
     Sub("aam_swap", body_aam_swap, strategy=strat_aam_swap, examples={"quick": 1000, "thorough": 12000},
         shards={"quick": 4, "thorough": 16}),
+    Sub("equivariant_graphs", body_equivariant, strategy=strat_equivariant, examples={"quick": 1200, "thorough": 20000},
+        shards={"quick": 2, "thorough": 8}, doc="AAMValidator.check_equivariant_graph on synthetic ITS-like graphs"),
     Sub("balance", body_balance, strategy=strat_balance, examples={"quick": 4000, "thorough": 60000},
         shards={"quick": 4, "thorough": 16}),
 ]
